@@ -192,9 +192,10 @@ package sbom
 //@   assigns \nothing
 
 //@ func Person.flatString
-//@   props C11
+//@   props C11, C14
 //@   pure
 //@   assigns \nothing
+//@   reads-each Person[all]: [C14:key:person:$f]
 
 //@ func Person.ToSPDX2ClientString
 //@   props C11
@@ -206,10 +207,12 @@ package sbom
 //@   inline
 //@   assigns \nothing
 
+// the diff (C14) and equality (C13) of external references go through this key
 //@ func ExternalReference.flatString
-//@   props C11
+//@   props C11, C14
 //@   pure
 //@   assigns \nothing
+//@   reads-each ExternalReference[all]: [C14:key:extref:$f]
 
 //@ func NodeList.Equal
 //@   props C11
